@@ -82,8 +82,21 @@ def extract(tier):
                     yi = np.array(raw(xi.astype(np.int64)), dtype=float)
                     lst.append((xi, yi))
                     probes.append(("int64", 0, xi, yi))
+                if W.kind == "complex" and fam not in zoo.REAL_INPUT_BAD:
+                    # complex-linear operator given a REAL-dtype (float64) vector: same result as for the same vector typed complex
+                    xq = l1.ivector(r, n, False)
+                    fresh = zoo.build(fam, params)      # a FRESH instance: the real-typed vector is the first thing it ever sees
+                    yq = np.array((fresh.matvec if lst is fw else fresh.rmatvec)(xq.astype(np.float64)), dtype=complex)
+                    lst.append((xq.astype(complex), yq))
+                    probes.append(("realdtype", 0, xq.astype(complex), yq))
                 rec.setdefault("probes", {})["fw" if lst is fw else "ad"] = probes
                 lst.append(("comb", a, b))
+            # the forward once more AFTER all the adjoint calls above (a non-zero vector and zero): state left behind by
+            # rmatvec (work arrays of FFT plans, cached tables) must not leak into matvec
+            for xa in (l1.ivector(r, W.N, W.cplx), np.zeros(W.N, dtype=complex if W.cplx else float)):
+                ya = np.array(W.fwd(xa.copy()))
+                fw.insert(len(fw) - 1, (xa, ya))
+                rec["probes"]["fw"].append(("again", 0, xa, ya))
             rec.update(A=A, B=B, fw=fw, ad=ad)
         except Exception as e:  # recorded, judged by the caller
             rec["error"] = "%s: %s" % (type(e).__name__, str(e)[:300])
